@@ -2202,4 +2202,269 @@ theorem callableError_not_computable (rx : String → String → Bool) (op name 
       cases he
 
 
+
+/-! ### constructed Parameters: shape; KeyError is unreachable; where a class body stops -/
+
+
+theorem missingKey_false_of_plain {T : PType} (hT : T ≠ .selector) (f : Slots) : missingKey T f = false := by
+  cases T <;> simp_all [missingKey, slotsOf, slotOrder, hasSlot, typeDefault]
+
+theorem missingKey_selector_false {f : Slots} (h : (f .names).isSome = true) : missingKey .selector f = false := by
+  simp only [missingKey, slotsOf, slotOrder, List.filter, hasSlot, List.any, typeDefault]
+  cases hn : f .names with
+  | none => simp [hn] at h
+  | some v => simp
+
+theorem prepare_keyError {T : PType} {op name : Nat} {found f : Slots}
+    (h : prepare T op name found = .error (.keyError, f)) : missingKey T found = true := by
+  simp only [prepare] at h
+  split at h
+  · assumption
+  · split at h
+    · cases h
+    · split at h <;> cases h
+
+/-- a Parameter whose `names` slot is set (every constructed Selector) never hits the KeyError branch -/
+theorem inherit_not_keyError (rx : String → String → Bool) (op name : Nat) (own : Param) (supers : List (Option Param))
+    (hn : own.ptype = .selector → (own.slots .names).isSome = true) :
+    (inherit rx op name own supers).outcome ≠ .keyError := by
+  intro h
+  have hmk : missingKey own.ptype (mergeSearch own supers).1 = false := by
+    by_cases hT : own.ptype = .selector
+    · rw [hT]
+      apply missingKey_selector_false
+      rw [mergeSearch_fst, firstSome_offers]
+      have := hn hT
+      cases hs : own.slots .names with
+      | none => simp [hs] at this
+      | some v => simp [hT, hasSlot]
+    · exact missingKey_false_of_plain hT _
+  unfold inherit at h
+  simp only [] at h
+  cases hp : prepare own.ptype op name (mergeSearch own supers).1 with
+  | ok f4 =>
+    simp only [hp] at h
+    split at h
+    · cases h
+    · split at h
+      · revert h
+        unfold revalidate
+        split
+        · cases ensureInObjects f4 _ <;> simp
+        · split <;> simp
+      · cases h
+  | error e =>
+    obtain ⟨o, f⟩ := e
+    simp only [hp] at h
+    subst h
+    rw [prepare_keyError hp] at hmk
+    cases hmk
+
+theorem ensureInObjects_other {f g : Slots} {val : PyV} (h : ensureInObjects f val = .ok g) {s : Slot}
+    (hs : s ≠ .objects) : g s = f s := by
+  unfold ensureInObjects at h
+  split at h
+  · split at h
+    · cases h
+      split
+      · rfl
+      · simp [Slots.set, hs]
+    · cases h
+  · cases h
+
+
+
+/-- slots a constructor computes instead of (or in addition to) storing the keyword argument -/
+def derivedSlot (T : PType) (s : Slot) : Bool :=
+  match T, s with
+  | _, .allowNone => true
+  | _, .constant => true
+  | .tuple, .length => true
+  | .list, .itemType => true
+  | .list, .itemClass => true
+  | .selector, .default => true
+  | .selector, .objects => true
+  | .selector, .names => true
+  | _, _ => false
+
+theorem baseInit_slot (T : PType) (dflt : Option Val) (args : Slots) (inst : Option Bool) {s : Slot}
+    (h1 : s ≠ .allowNone) (h2 : s ≠ .constant) (h3 : s ≠ .default) (hb : hasSlot .parameter s = true) :
+    (baseInit T dflt args inst).slots s = args s := by
+  cases s <;> simp_all [baseInit, hasSlot]
+
+theorem baseInit_default (T : PType) (dflt : Option Val) (args : Slots) (inst : Option Bool) :
+    (baseInit T dflt args inst).slots .default = dflt := rfl
+
+theorem baseInit_ptype (T : PType) (dflt : Option Val) (args : Slots) (inst : Option Bool) :
+    (baseInit T dflt args inst).ptype = T := rfl
+
+/-- the shape of every successfully constructed Parameter: its type, and that every slot the
+constructor does not derive holds exactly the keyword argument (`none` = `Undefined` = not given) -/
+theorem construct_shape (rx : String → String → Bool) (op name : Nat) (d : Decl) (own : Param)
+    (h : construct rx op name d = .ok own) :
+    own.ptype = d.ptype ∧
+    (∀ s, hasSlot d.ptype s = true → derivedSlot d.ptype s = false → own.slots s = d.args s) ∧
+    (d.ptype = .selector → (own.slots .names).isSome = true) := by
+  unfold construct at h
+  split at h
+  · rename_i hpt
+    cases h
+    refine ⟨hpt.symm, ?_, fun h => by rw [hpt] at h; cases h⟩
+    intro s hs hd
+    rw [hpt] at hs hd
+    cases s <;> simp_all [baseInit, hasSlot, derivedSlot]
+  · rename_i hpt
+    obtain ⟨rfl, _⟩ := checked_ok h
+    refine ⟨rfl, ?_, fun h => by rw [hpt] at h; cases h⟩
+    intro s hs hd
+    rw [hpt] at hs hd
+    cases s <;> simp_all [baseInit, hasSlot, derivedSlot, Slots.set]
+  · rename_i hpt
+    obtain ⟨rfl, _⟩ := checked_ok h
+    refine ⟨rfl, ?_, fun h => by rw [hpt] at h; cases h⟩
+    intro s hs hd
+    rw [hpt] at hs hd
+    cases s <;> simp_all [baseInit, hasSlot, derivedSlot, Slots.set]
+  · rename_i hpt
+    obtain ⟨rfl, _⟩ := checked_ok h
+    refine ⟨hpt.symm, ?_, fun h => by rw [hpt] at h; cases h⟩
+    intro s hs hd
+    rw [hpt] at hs hd
+    cases s <;> simp_all [baseInit, hasSlot, derivedSlot, Slots.set]
+  · rename_i hpt
+    cases hc : tupleNoLength d.args with
+    | true => simp [hc] at h
+    | false =>
+      simp only [hc, Bool.false_eq_true, if_false] at h
+      cases hl : tupleLength d.args with
+      | error e => simp [hl] at h
+      | ok len =>
+        simp only [hl] at h
+        obtain ⟨rfl, _⟩ := checked_ok h
+        refine ⟨hpt.symm, ?_, fun h => by rw [hpt] at h; cases h⟩
+        intro s hs hd
+        rw [hpt] at hs hd
+        cases s <;> simp_all [baseInit, hasSlot, derivedSlot, Slots.set]
+  · rename_i hpt
+    obtain ⟨rfl, _⟩ := checked_ok h
+    refine ⟨hpt.symm, ?_, fun h => by rw [hpt] at h; cases h⟩
+    intro s hs hd
+    rw [hpt] at hs hd
+    cases s <;> simp_all [baseInit, hasSlot, derivedSlot, Slots.set]
+  · rename_i hpt
+    have hraw : ∀ ad, (∀ s, hasSlot .selector s = true → derivedSlot .selector s = false →
+        (selectorRaw op name d.args d.instantiate ad).slots s = d.args s) ∧
+        ((selectorRaw op name d.args d.instantiate ad).slots .names).isSome = true := by
+      intro ad
+      constructor
+      · intro s hs hd
+        cases s <;> simp_all [selectorRaw, baseInit, hasSlot, derivedSlot, Slots.set]
+      · simp only [selectorRaw, Slots.set]
+        simp only [reduceCtorEq, if_false, if_true]
+        split <;> rfl
+    unfold constructSelector at h
+    cases had : selectorAutodefault d.args with
+    | error e => simp [had] at h
+    | ok ad =>
+      simp only [had] at h
+      cases hv : unboundView .selector op name (selectorRaw op name d.args d.instantiate ad).slots with
+      | error e => simp [hv] at h
+      | ok view =>
+        simp only [hv] at h
+        cases hdv : view .default with
+        | none => simp [hdv] at h
+        | some dv =>
+          cases hcv : view .checkOnSet with
+          | none => simp [hdv, hcv] at h
+          | some cos =>
+            simp only [hdv, hcv] at h
+            cases hval : (if dv.v.isNone = true then (Except.ok () : Except ErrKind Unit)
+                else validateSelector (cfgOf view) dv.v) with
+            | error e => simp [hval] at h
+            | ok u =>
+              simp only [hval] at h
+              split at h
+              · cases he : ensureInObjects (selectorRaw op name d.args d.instantiate ad).slots dv.v with
+                | error e => simp [he] at h
+                | ok s' =>
+                  simp only [he] at h
+                  cases h
+                  refine ⟨hpt.symm, ?_, fun _ => ?_⟩
+                  · intro s hs hd
+                    rw [hpt] at hs hd
+                    have hso : s ≠ .objects := by intro e; subst e; simp [derivedSlot] at hd
+                    show s' s = _
+                    rw [ensureInObjects_other he hso]
+                    exact (hraw ad).1 s hs hd
+                  · show (s' .names).isSome = true
+                    rw [ensureInObjects_other he (by decide)]
+                    exact (hraw ad).2
+              · cases h
+                exact ⟨hpt.symm, fun s hs hd => by rw [hpt] at hs hd; exact (hraw ad).1 s hs hd, fun _ => (hraw ad).2⟩
+
+
+
+/-- the outcome of merging one declaration of a class body in world `w` -/
+def mergeOutcome (rx : String → String → Bool) (op : Nat) (w : World) (tail : List Nat) (x : Nat × Param) : Outcome :=
+  (inherit rx op x.1 x.2 (w.supers tail x.1)).outcome
+
+/-- `mergeAll` stops at the first declaration whose merge does not succeed -/
+theorem mergeAll_fail_iff (rx : String → String → Bool) (op : Nat) (w : World) (tail : List Nat) :
+    ∀ (raws : List (Nat × Param)) (k : Nat) (acc : List (Nat × MergeRes)) (i : Nat) (o : Outcome),
+      (mergeAll rx op w tail raws k acc).2 = some (i, o) ↔
+        ∃ j x, i = k + j ∧ raws[j]? = some x ∧ mergeOutcome rx op w tail x = o ∧ o ≠ .ok ∧
+          ∀ j' x', j' < j → raws[j']? = some x' → mergeOutcome rx op w tail x' = .ok
+  | [], k, acc, i, o => by simp [mergeAll]
+  | (n, p) :: rest, k, acc, i, o => by
+    simp only [mergeAll]
+    split
+    · rename_i hok
+      have hok' : mergeOutcome rx op w tail (n, p) = .ok := by simpa [mergeOutcome] using hok
+      rw [mergeAll_fail_iff rx op w tail rest (k + 1)]
+      constructor
+      · rintro ⟨j, x, hi, hx, ho, hne, hall⟩
+        refine ⟨j + 1, x, by omega, by simpa using hx, ho, hne, ?_⟩
+        intro j' x' hj hx'
+        cases j' with
+        | zero => simp at hx'; subst hx'; exact hok'
+        | succ j'' => exact hall j'' x' (by omega) (by simpa using hx')
+      · rintro ⟨j, x, hi, hx, ho, hne, hall⟩
+        cases j with
+        | zero =>
+          simp at hx; subst hx
+          rw [hok'] at ho; exact absurd ho.symm hne
+        | succ j'' =>
+          refine ⟨j'', x, by omega, by simpa using hx, ho, hne, ?_⟩
+          intro j' x' hj hx'
+          exact hall (j' + 1) x' (by omega) (by simpa using hx')
+    · rename_i hnok
+      have hnok' : mergeOutcome rx op w tail (n, p) ≠ .ok := by simpa [mergeOutcome] using hnok
+      simp only [Option.some.injEq, Prod.mk.injEq]
+      constructor
+      · rintro ⟨rfl, rfl⟩
+        exact ⟨0, (n, p), rfl, rfl, rfl, hnok', fun j' x' hj => by omega⟩
+      · rintro ⟨j, x, hi, hx, ho, hne, hall⟩
+        cases j with
+        | zero =>
+          simp at hx; subst hx
+          exact ⟨by omega, ho⟩
+        | succ j'' =>
+          exact absurd (hall 0 (n, p) (by omega) rfl) hnok'
+
+
+
+theorem mergeAll_none_all_ok (rx : String → String → Bool) (op : Nat) (w : World) (tail : List Nat) :
+    ∀ (raws : List (Nat × Param)) (k : Nat) (acc : List (Nat × MergeRes)),
+      (mergeAll rx op w tail raws k acc).2 = none → ∀ x ∈ raws, mergeOutcome rx op w tail x = .ok
+  | [], _, _, _, x, hx => by cases hx
+  | (n, p) :: rest, k, acc, h, x, hx => by
+    simp only [mergeAll] at h
+    split at h
+    · rename_i hok
+      rcases List.mem_cons.1 hx with e | e
+      · subst e; simpa [mergeOutcome] using hok
+      · exact mergeAll_none_all_ok rx op w tail rest _ _ h x e
+    · cases h
+
+
 end ParamVerif.Inherit
